@@ -87,7 +87,7 @@ PROPS = {
     },
     'C10': {
         'correspondence': CORR_L1,
-        'coq': ['theories/L1g/PropsC10.vo', 'theories/L1g/Inst.vo'],
+        'coq': ['theories/L1g/PropsC10.vo', 'theories/L1g/Inst.vo', 'theories/PoolChg/Inst.vo'],
         'profiles': [prof('gate', (80, 20), (2000, 80)), prof('pool', (40, 10), (800, 40))],
         'monitors': ['C10', 'C03', 'C04'], 'liveness': True, 'panics': True,
         'trusted_base': L1_TRUST + ['a blocked operation is an actor that never moves while at its closure-run frame (frozen set B)'],
